@@ -29,7 +29,8 @@ Inductive vkind :=
 | VConnLeft            (* C11: after a disconnect and quiescence the gateway still holds state for the connection *)
 | VRequestAfterClose   (* C11: a service request on behalf of a connection closed before the previous quiescent point *)
 | VSpuriousRefetch     (* C12: a loaded resource was re-fetched without a system reset matching it *)
-| VMissedRefetch.      (* C12: a system reset matched a loaded resource that was not re-fetched *)
+| VMissedRefetch       (* C12: a system reset matched a loaded resource that was not re-fetched *)
+| VQueryRequests.      (* C13: a query event was not followed by exactly one query request per loaded query variant *)
 
 Record viol := { v_kind : vkind; v_c : conn; v_r : rid; v_pos : nat }.
 
@@ -50,38 +51,39 @@ Record mstate := {
   reqpos : list (conn * (nat * nat));                   (* position at which each outstanding request was sent *)
   resetting : list (rid * option nat);                  (* resources whose reset re-fetch is under way, with the re-fetch request once seen *)
   due : list rid;                                       (* loaded resources matched by a system reset whose reset task has not started yet *)
-  task_open : option rid                                (* the reset task of this resource is being processed and has started nothing so far *)
+  task_open : option rid;                               (* the reset task of this resource is being processed and has started nothing so far *)
+  qexpect : list (rid * nat)                            (* query variants that must receive exactly one query request, with the number seen *)
 }.
 
 Definition mstate0 : mstate :=
-  {| clients := []; reqs := []; stream := []; ptrs := []; viols := []; pos := 0; gone := []; mqsubs := []; fetched := []; connsubs := []; settled_gone := []; accreq := []; lastacc := []; reqpos := []; resetting := []; due := []; task_open := None |}.
+  {| clients := []; reqs := []; stream := []; ptrs := []; viols := []; pos := 0; gone := []; mqsubs := []; fetched := []; connsubs := []; settled_gone := []; accreq := []; lastacc := []; reqpos := []; resetting := []; due := []; task_open := None; qexpect := [] |}.
 
 Definition get_client (st : mstate) (c : conn) : client :=
   match lookup c (clients st) with Some cl => cl | None => client0 end.
 
 Definition set_client (st : mstate) (c : conn) (cl : client) : mstate :=
-  {| clients := set_k c cl (clients st); reqs := reqs st; stream := stream st; ptrs := ptrs st; viols := viols st; pos := pos st; gone := gone st; mqsubs := mqsubs st; fetched := fetched st; connsubs := connsubs st; settled_gone := settled_gone st; accreq := accreq st; lastacc := lastacc st; reqpos := reqpos st; resetting := resetting st; due := due st; task_open := task_open st |}.
+  {| clients := set_k c cl (clients st); reqs := reqs st; stream := stream st; ptrs := ptrs st; viols := viols st; pos := pos st; gone := gone st; mqsubs := mqsubs st; fetched := fetched st; connsubs := connsubs st; settled_gone := settled_gone st; accreq := accreq st; lastacc := lastacc st; reqpos := reqpos st; resetting := resetting st; due := due st; task_open := task_open st; qexpect := qexpect st |}.
 
 Definition add_viol (st : mstate) (k : vkind) (c : conn) (r : rid) : mstate :=
   {| clients := clients st; reqs := reqs st; stream := stream st; ptrs := ptrs st;
-     viols := viols st ++ [{| v_kind := k; v_c := c; v_r := r; v_pos := pos st |}]; pos := pos st; gone := gone st; mqsubs := mqsubs st; fetched := fetched st; connsubs := connsubs st; settled_gone := settled_gone st; accreq := accreq st; lastacc := lastacc st; reqpos := reqpos st; resetting := resetting st; due := due st; task_open := task_open st |}.
+     viols := viols st ++ [{| v_kind := k; v_c := c; v_r := r; v_pos := pos st |}]; pos := pos st; gone := gone st; mqsubs := mqsubs st; fetched := fetched st; connsubs := connsubs st; settled_gone := settled_gone st; accreq := accreq st; lastacc := lastacc st; reqpos := reqpos st; resetting := resetting st; due := due st; task_open := task_open st; qexpect := qexpect st |}.
 
 Definition set_reqs (st : mstate) (q : list (conn * (nat * (rkind * rid * Z)))) : mstate :=
-  {| clients := clients st; reqs := q; stream := stream st; ptrs := ptrs st; viols := viols st; pos := pos st; gone := gone st; mqsubs := mqsubs st; fetched := fetched st; connsubs := connsubs st; settled_gone := settled_gone st; accreq := accreq st; lastacc := lastacc st; reqpos := reqpos st; resetting := resetting st; due := due st; task_open := task_open st |}.
+  {| clients := clients st; reqs := q; stream := stream st; ptrs := ptrs st; viols := viols st; pos := pos st; gone := gone st; mqsubs := mqsubs st; fetched := fetched st; connsubs := connsubs st; settled_gone := settled_gone st; accreq := accreq st; lastacc := lastacc st; reqpos := reqpos st; resetting := resetting st; due := due st; task_open := task_open st; qexpect := qexpect st |}.
 Definition set_ptrs (st : mstate) (p : list (conn * (rid * list nat))) : mstate :=
-  {| clients := clients st; reqs := reqs st; stream := stream st; ptrs := p; viols := viols st; pos := pos st; gone := gone st; mqsubs := mqsubs st; fetched := fetched st; connsubs := connsubs st; settled_gone := settled_gone st; accreq := accreq st; lastacc := lastacc st; reqpos := reqpos st; resetting := resetting st; due := due st; task_open := task_open st |}.
+  {| clients := clients st; reqs := reqs st; stream := stream st; ptrs := p; viols := viols st; pos := pos st; gone := gone st; mqsubs := mqsubs st; fetched := fetched st; connsubs := connsubs st; settled_gone := settled_gone st; accreq := accreq st; lastacc := lastacc st; reqpos := reqpos st; resetting := resetting st; due := due st; task_open := task_open st; qexpect := qexpect st |}.
 Definition set_stream (st : mstate) (s : list (rid * list sevent)) : mstate :=
-  {| clients := clients st; reqs := reqs st; stream := s; ptrs := ptrs st; viols := viols st; pos := pos st; gone := gone st; mqsubs := mqsubs st; fetched := fetched st; connsubs := connsubs st; settled_gone := settled_gone st; accreq := accreq st; lastacc := lastacc st; reqpos := reqpos st; resetting := resetting st; due := due st; task_open := task_open st |}.
+  {| clients := clients st; reqs := reqs st; stream := s; ptrs := ptrs st; viols := viols st; pos := pos st; gone := gone st; mqsubs := mqsubs st; fetched := fetched st; connsubs := connsubs st; settled_gone := settled_gone st; accreq := accreq st; lastacc := lastacc st; reqpos := reqpos st; resetting := resetting st; due := due st; task_open := task_open st; qexpect := qexpect st |}.
 Definition bump (st : mstate) : mstate :=
-  {| clients := clients st; reqs := reqs st; stream := stream st; ptrs := ptrs st; viols := viols st; pos := S (pos st); gone := gone st; mqsubs := mqsubs st; fetched := fetched st; connsubs := connsubs st; settled_gone := settled_gone st; accreq := accreq st; lastacc := lastacc st; reqpos := reqpos st; resetting := resetting st; due := due st; task_open := task_open st |}.
+  {| clients := clients st; reqs := reqs st; stream := stream st; ptrs := ptrs st; viols := viols st; pos := S (pos st); gone := gone st; mqsubs := mqsubs st; fetched := fetched st; connsubs := connsubs st; settled_gone := settled_gone st; accreq := accreq st; lastacc := lastacc st; reqpos := reqpos st; resetting := resetting st; due := due st; task_open := task_open st; qexpect := qexpect st |}.
 
 Definition set_acc (st : mstate) (ar : list (nat * (conn * rid))) (la : list (conn * (rid * option nat))) : mstate :=
   {| clients := clients st; reqs := reqs st; stream := stream st; ptrs := ptrs st; viols := viols st; pos := pos st;
-     gone := gone st; mqsubs := mqsubs st; fetched := fetched st; connsubs := connsubs st; settled_gone := settled_gone st; accreq := ar; lastacc := la; reqpos := reqpos st; resetting := resetting st; due := due st; task_open := task_open st |}.
+     gone := gone st; mqsubs := mqsubs st; fetched := fetched st; connsubs := connsubs st; settled_gone := settled_gone st; accreq := ar; lastacc := la; reqpos := reqpos st; resetting := resetting st; due := due st; task_open := task_open st; qexpect := qexpect st |}.
 Definition set_reqpos (st : mstate) (rp : list (conn * (nat * nat))) : mstate :=
   {| clients := clients st; reqs := reqs st; stream := stream st; ptrs := ptrs st; viols := viols st; pos := pos st;
      gone := gone st; mqsubs := mqsubs st; fetched := fetched st; connsubs := connsubs st; settled_gone := settled_gone st;
-     accreq := accreq st; lastacc := lastacc st; reqpos := rp; resetting := resetting st; due := due st; task_open := task_open st |}.
+     accreq := accreq st; lastacc := lastacc st; reqpos := rp; resetting := resetting st; due := due st; task_open := task_open st; qexpect := qexpect st |}.
 
 Definition stream_of (st : mstate) (r : rid) : list sevent :=
   match lookup r (stream st) with Some s => s | None => [] end.
@@ -196,6 +198,7 @@ Definition check_served_hook (st : mstate) (c : conn) (rs : rset) : mstate :=
   fold_left (fun s x => match snd x with
                         | RErr _ => s
                         | _ => if mem (fst x) (fetched s)
+                                  || (negb (Nat.eqb (base_of (fst x)) (fst x)) && existsb (fun f => Nat.eqb (base_of f) (base_of (fst x))) (fetched s))
                                   || existsb (fun e => match e with SDelete => true | _ => false end)
                                              (match lookup (fst x) (stream s) with Some l => l | None => [] end)
                                then s   (* fetched under the standing subscription, or the service announced its deletion
@@ -203,7 +206,7 @@ Definition check_served_hook (st : mstate) (c : conn) (rs : rset) : mstate :=
                                else {| clients := clients s; reqs := reqs s; stream := stream s; ptrs := ptrs s;
                                        viols := viols s ++ [{| v_kind := VServedUnsubscribed; v_c := c; v_r := fst x; v_pos := pos s |}];
                                        pos := pos s; gone := gone s; mqsubs := mqsubs s; fetched := fetched s;
-                                       connsubs := connsubs s; settled_gone := settled_gone s; accreq := accreq s; lastacc := lastacc s; reqpos := reqpos s; resetting := resetting s; due := due s; task_open := task_open s |}
+                                       connsubs := connsubs s; settled_gone := settled_gone s; accreq := accreq s; lastacc := lastacc s; reqpos := reqpos s; resetting := resetting s; due := due s; task_open := task_open s; qexpect := qexpect s |}
                         end) rs st.
 
 Definition merge_into (st : mstate) (c : conn) (rs : rset) : mstate :=
@@ -296,18 +299,22 @@ Definition frame_conn (e : tev) : option conn :=
   end.
 
 Definition set_gone (st : mstate) (c : conn) : mstate :=
-  {| clients := clients st; reqs := reqs st; stream := stream st; ptrs := ptrs st; viols := viols st; pos := pos st; gone := c :: gone st; mqsubs := mqsubs st; fetched := fetched st; connsubs := connsubs st; settled_gone := settled_gone st; accreq := accreq st; lastacc := lastacc st; reqpos := reqpos st; resetting := resetting st; due := due st; task_open := task_open st |}.
+  {| clients := clients st; reqs := reqs st; stream := stream st; ptrs := ptrs st; viols := viols st; pos := pos st; gone := c :: gone st; mqsubs := mqsubs st; fetched := fetched st; connsubs := connsubs st; settled_gone := settled_gone st; accreq := accreq st; lastacc := lastacc st; reqpos := reqpos st; resetting := resetting st; due := due st; task_open := task_open st; qexpect := qexpect st |}.
 
 Definition set_cache (st : mstate) (ms fs : list rid) : mstate :=
   {| clients := clients st; reqs := reqs st; stream := stream st; ptrs := ptrs st; viols := viols st; pos := pos st;
-     gone := gone st; mqsubs := ms; fetched := fs; connsubs := connsubs st; settled_gone := settled_gone st; accreq := accreq st; lastacc := lastacc st; reqpos := reqpos st; resetting := resetting st; due := due st; task_open := task_open st |}.
+     gone := gone st; mqsubs := ms; fetched := fs; connsubs := connsubs st; settled_gone := settled_gone st; accreq := accreq st; lastacc := lastacc st; reqpos := reqpos st; resetting := resetting st; due := due st; task_open := task_open st; qexpect := qexpect st |}.
 Definition set_conns (st : mstate) (cs sg : list conn) : mstate :=
   {| clients := clients st; reqs := reqs st; stream := stream st; ptrs := ptrs st; viols := viols st; pos := pos st;
-     gone := gone st; mqsubs := mqsubs st; fetched := fetched st; connsubs := cs; settled_gone := sg; accreq := accreq st; lastacc := lastacc st; reqpos := reqpos st; resetting := resetting st; due := due st; task_open := task_open st |}.
+     gone := gone st; mqsubs := mqsubs st; fetched := fetched st; connsubs := cs; settled_gone := sg; accreq := accreq st; lastacc := lastacc st; reqpos := reqpos st; resetting := resetting st; due := due st; task_open := task_open st; qexpect := qexpect st |}.
 Definition set_reset (st : mstate) (rs : list (rid * option nat)) (du : list rid) (tk : option rid) : mstate :=
   {| clients := clients st; reqs := reqs st; stream := stream st; ptrs := ptrs st; viols := viols st; pos := pos st;
      gone := gone st; mqsubs := mqsubs st; fetched := fetched st; connsubs := connsubs st; settled_gone := settled_gone st;
-     accreq := accreq st; lastacc := lastacc st; reqpos := reqpos st; resetting := rs; due := du; task_open := tk |}.
+     accreq := accreq st; lastacc := lastacc st; reqpos := reqpos st; resetting := rs; due := du; task_open := tk; qexpect := qexpect st |}.
+Definition set_qexpect (st : mstate) (q : list (rid * nat)) : mstate :=
+  {| clients := clients st; reqs := reqs st; stream := stream st; ptrs := ptrs st; viols := viols st; pos := pos st;
+     gone := gone st; mqsubs := mqsubs st; fetched := fetched st; connsubs := connsubs st; settled_gone := settled_gone st;
+     accreq := accreq st; lastacc := lastacc st; reqpos := reqpos st; resetting := resetting st; due := due st; task_open := task_open st; qexpect := q |}.
 Definition set_resetting (st : mstate) (rs : list (rid * option nat)) : mstate := set_reset st rs (due st) (task_open st).
 Definition remove_rid (r : rid) (l : list rid) : list rid := filter (fun x => negb (Nat.eqb x r)) l.
 
@@ -333,6 +340,15 @@ Definition on_reset_task (st : mstate) (r : rid) (started : bool) (noop : bool) 
       if started then set_reset st ((r, None) :: filter (fun x => negb (Nat.eqb (fst x) r)) (resetting st)) (remove_rid r (due st)) None
       else if noop then set_reset st (resetting st) (remove_rid r (due st)) None
       else set_reset st (resetting st) (due st) None
+  end.
+
+(* count a query request against the oldest expectation for that variant which has none yet (else the oldest) *)
+Fixpoint bump_first (r : rid) (l : list (rid * nat)) : list (rid * nat) :=
+  match l with
+  | [] => []
+  | (r', n) :: l' =>
+      if Nat.eqb r r' && (Nat.eqb n 0 || negb (existsb (fun x => Nat.eqb (fst x) r && Nat.eqb (snd x) 0) l'))
+      then (r', S n) :: l' else (r', n) :: bump_first r l'
   end.
 
 Definition step (st : mstate) (e : tev) : mstate :=
@@ -464,6 +480,9 @@ Definition step (st : mstate) (e : tev) : mstate :=
                   | [], r :: _ => add_viol st VNotFreed 0 r
                   end
                 else st in
+      (* C13: every loaded variant received exactly one query request *)
+      let st := fold_left (fun s x => if Nat.eqb (snd x) 1 then s else add_viol s VQueryRequests 0 (fst x)) (qexpect st) st in
+      let st := set_qexpect st [] in
       (* C12: every loaded resource matched by a reset has been re-fetched *)
       let st := fold_left (fun s r => add_viol s VMissedRefetch 0 r) (due st) st in
       let st := set_reset st [] [] None in
@@ -476,19 +495,27 @@ Definition step (st : mstate) (e : tev) : mstate :=
                            end in
                   if mem c (connsubs s) then add_viol s VConnLeft c 1 else s) (gone st) st in
       set_conns st (connsubs st) (gone st)
-  | TMqSub r => set_cache st (r :: remove_rid r (mqsubs st)) (remove_rid r (fetched st))
-  | TMqUnsub r => set_cache st (remove_rid r (mqsubs st)) (remove_rid r (fetched st))
+  | TMqSub r => set_cache st (r :: remove_rid r (mqsubs st)) (filter (fun f => negb (Nat.eqb (base_of f) r)) (fetched st))
+  | TMqUnsub r => set_cache st (remove_rid r (mqsubs st)) (filter (fun f => negb (Nat.eqb (base_of f) r)) (fetched st))
   | TMqReq n t r c tok _ =>
       let st := match t, c with
                 | MAccess, Some c' => set_acc st ((n, (c', r)) :: accreq st) (lastacc st)
                 | _, _ => st
                 end in
       let st := match t with
+                | MQuery =>
+                    if existsb (fun x => Nat.eqb (fst x) r) (qexpect st)
+                    then set_qexpect st (bump_first r (qexpect st))
+                    else add_viol st VQueryRequests 0 r          (* a query request for a variant that is not loaded *)
+                | _ => st
+                end in
+      let st := match t with
                 | MGet =>
-                    let st := if mem r (mqsubs st) then st else add_viol st VGetWithoutSub 0 r in
+                    let st := if mem (base_of r) (mqsubs st) then st else add_viol st VGetWithoutSub 0 r in
                     if existsb (fun x => Nat.eqb (fst x) r && match snd x with None => true | Some _ => false end) (resetting st)
                     then set_resetting st (map (fun x => if Nat.eqb (fst x) r then (r, Some n) else x) (resetting st))
-                    else if mem r (fetched st) then add_viol st VSpuriousRefetch 0 r else st
+                    else if mem r (fetched st) && Nat.eqb (base_of r) r   (* a query variant is dropped from the cache as soon as its last subscriber leaves *)
+                         then add_viol st VSpuriousRefetch 0 r else st
                 | _ => st
                 end in
       match c with
@@ -496,7 +523,7 @@ Definition step (st : mstate) (e : tev) : mstate :=
       | None => st
       end
   | TMqResp n r (OGet d) =>
-      let st := if mem r (mqsubs st) then set_cache st (mqsubs st) (r :: remove_rid r (fetched st)) else st in
+      let st := if mem (base_of r) (mqsubs st) then set_cache st (mqsubs st) (r :: remove_rid r (fetched st)) else st in
       if existsb (fun x => Nat.eqb (fst x) r && match snd x with Some m => Nat.eqb m n | None => false end) (resetting st)
       then set_stream (set_resetting st (filter (fun x => negb (Nat.eqb (fst x) r)) (resetting st)))
                       (set_k r (stream_of st r ++ [SResetEnd]) (stream st))
@@ -518,6 +545,9 @@ Definition step (st : mstate) (e : tev) : mstate :=
           set_acc st (accreq st) ((c, (r, if v then None else Some code)) :: filter (fun x => negb (Nat.eqb (fst x) c && Nat.eqb (fst (snd x)) r)) (lastacc st))
       | None => st
       end
+  | TQVariants _ vs => set_qexpect st (qexpect st ++ map (fun v => (v, 0)) vs)
+  | TQueryAnswered aliases =>
+      fold_left (fun s r => set_stream s (set_k r (stream_of s r ++ [SResetEnd]) (stream s))) aliases st
   | TResetTask r => set_reset st (resetting st) (due st) (Some r)
   | TResetStart r => on_reset_task st r true false
   | TResetNoop r => on_reset_task st r false true
